@@ -35,6 +35,7 @@ func runC16(c *Ctx) {
 	ruleRcptsRecorded(c)
 	R.Rule("R-client-parse", "E4 + who-may-call", "the verdict Close returns is the server's reply converted by readResponse/toSMTPErr: code, enhanced code and the text with the per-line code repetitions removed", 4)
 	ruleClientParse(c)
+	ruleEnhDefault(c) // every line of the verdict carries the same (possibly defaulted) enhanced code
 
 	R.Rule("R-data-writer", "E4 value flow", "Data/LMTPData return a dataCloser around c.text.DotWriter() obtained on the nil-error edge of the DATA command expecting 354", 4)
 	for _, fn := range []string{"(*Client).Data", "(*Client).LMTPData"} {
